@@ -189,6 +189,39 @@ def fifo_rtu(u: int, v: bytes) -> bool:
     return True
 
 
+def make_lost_rtu(j):
+    """serial (FIFO) variant: j replies delivered, then the connection is lost: every still-pending deferred fails with
+    ConnectionException, answered ones are not touched, a request issued afterwards fails likewise"""
+    def lost_rtu(u: int, v: bytes) -> bool:
+        import pymodbus.factory as F
+        from pymodbus.exceptions import ConnectionException
+        assume(len(v) == 4)
+        assume(1 <= u <= 247)
+        p, res = _proto("rtu")
+        recs = []
+        for i in range(2):
+            req = F.ReadHoldingRegistersRequest(i, 1)
+            req.unit_id = u
+            recs.append(_watch(p.execute(req)))
+        for i in range(j):
+            p.dataReceived(adu.ref_adu("rtu", bytes([3, 2, v[2 * i], v[2 * i + 1]]), u))
+        try:
+            p.connectionLost("test")
+        except Exception as e:
+            explain("connectionLost raised %s", type(e).__name__)
+            return False
+        for i, r in enumerate(recs):
+            if i < j:
+                if len(r.ok) != 1 or r.err:
+                    return False
+            elif r.ok or len(r.err) != 1 or not isinstance(r.err[0].value, ConnectionException):
+                explain("pending serial request %d: ok=%d err=%d after connection loss", i, len(r.ok), len(r.err))
+                return False
+        late = _watch(p.execute(F.ReadHoldingRegistersRequest(9, 1)))
+        return not late.ok and len(late.err) == 1 and isinstance(late.err[0].value, ConnectionException)
+    return lost_rtu
+
+
 def obligations(tier):
     from harness import kernels
     T = 300 if tier == "quick" else 1200
@@ -206,6 +239,9 @@ def obligations(tier):
                        bounds="three requests from a symbolic tid counter, %d replies delivered, then connection lost, then one more request" % j))
     out.append(Obl("step.tcp", step_tcp, timeout=T, findings=("KF-async-tid-wrap-overwrites-pending",),
                    bounds="arbitrary pre-state: two pending deferreds with symbolic distinct ids, symbolic counter; one new request, then connection loss"))
+    for j in (0, 1, 2):
+        out.append(Obl("lost.rtu.at%d" % j, make_lost_rtu(j), timeout=T, contracts=("crc",), lemmas=("K1",),
+                       bounds="serial (FIFO) protocol: two requests, %d replies delivered, then connection lost, then one more request; unit and values symbolic" % j))
     out.append(Obl("fifo.rtu", fifo_rtu, timeout=T, contracts=("crc",), lemmas=("K1",),
                    bounds="serial (FIFO) protocol: two requests, two replies in order; unit and values symbolic"))
     return out
